@@ -215,6 +215,41 @@ fn month_laws(u: u8, ts: &[i64], ctx: &mut Ctx, kmax: i32) {
     }
 }
 
+/// a duration with a month count *and* a fixed part (seed round 10): both parts are applied. The calendar
+/// library has no such duration, so the oracle is the decomposition into the two pure steps, each of which is
+/// judged on its own (`month_laws` against the calendar library, `inverse_laws` exactly); either order of the
+/// two steps is accepted.
+fn mixed_laws(u: u8, ts: &[i64], ctx: &mut Ctx) {
+    let fam = "datetime+-mixed";
+    let unit_ns = 1_000_000_000 / PER_SEC[u as usize] as i64;
+    let day = 86_400_000_000_000i64;
+    for &t in ts {
+        ctx.states += 1;
+        ctx.fam(fam).states += 1;
+        ctx.nontrivial(fam, hash_u64s(&[u as u64, t as u64, 78]));
+        for k in [-13i32, -12, -1, 1, 2, 12, 13] {
+            for ns in [day, -day, 7_200_000_000_000, -1_000_000_000, unit_ns, -unit_ns] {
+                ctx.transitions += 1;
+                let m = TimeDelta { months: k, inner: chrono::Duration::zero() };
+                let i = TimeDelta { months: 0, inner: chrono::Duration::nanoseconds(ns) };
+                let d = TimeDelta { months: k, inner: chrono::Duration::nanoseconds(ns) };
+                let got = by_unit!(u, U => catch(|| {
+                    let x = DateTime::<U>::new(t);
+                    [(x + d).into_i64(), ((x + m) + i).into_i64(), ((x + i) + m).into_i64(), (x - d).into_i64(), ((x - m) - i).into_i64(), ((x - i) - m).into_i64()]
+                }));
+                ctx.eval(fam, match &got { Outcome::Ok(g) => g[0] as u64 ^ (g[3] as u64).rotate_left(17), _ => 1 });
+                let ok = matches!(&got, Outcome::Ok(g) if (g[0] == g[1] || g[0] == g[2]) && (g[3] == g[4] || g[3] == g[5]));
+                if !ok {
+                    viol(ctx, "t +- (k months and a fixed part)", None, json!({"family": fam, "unit": UNITS[u as usize], "t": t, "months": k, "fixed_ns": ns}),
+                        "t + d is the month step and the fixed step applied one after the other (either order); the same for t - d".into(), format!("[t+d, (t+M)+I, (t+I)+M, t-d, (t-M)-I, (t-I)-M] = {got:?}"));
+                } else {
+                    ctx.traces += 1;
+                }
+            }
+        }
+    }
+}
+
 /// durations form a group under + and unary -, integer scaling distributes
 fn duration_group(ctx: &mut Ctx, all: &[(String, TimeDelta, i32, i128)]) {
     let fam = "duration-group";
@@ -434,6 +469,7 @@ fn main() {
         match case["family"].as_str().unwrap_or("") {
             "duration_trunc" => trunc_laws(u, &t, &mut ctx),
             "datetime+-months" => month_laws(u, &t, &mut ctx, 1200),
+            "datetime+-mixed" => mixed_laws(u, &t, &mut ctx),
             "datetime+-duration" => inverse_laws(u, &t, &mf, &mut ctx),
             "datetime-datetime" => pair_laws(u, &[t[0], case["b"].as_i64().unwrap_or(0)], &mut ctx),
             "duration-group" => duration_group(&mut ctx, &all_d),
@@ -449,6 +485,7 @@ fn main() {
         2 => {
             let eom: Vec<i64> = instants(*u, &rep_years[..rep_years.len().min(8)]);
             month_laws(*u, &eom, ctx, if run.quick() { 240 } else { 1200 });
+            mixed_laws(*u, &eom, ctx);
         }
         3 => trunc_laws(*u, &instants(*u, &all_years), ctx),
         _ => {
